@@ -263,6 +263,23 @@ impl Target {
         }
     }
 
+    /// Ask the target to map its `late_regions` (logical wait with a generous watchdog).
+    pub fn map_late(&self) -> bool {
+        self.ctl.set(CTL_MAP_LATE, 1);
+        let t0 = std::time::Instant::now();
+        loop {
+            match self.ctl.get(CTL_LATE_DONE) {
+                1 => return true,
+                2 => return false,
+                _ => {}
+            }
+            if t0.elapsed().as_secs() > 30 {
+                return false;
+            }
+            std::thread::sleep(std::time::Duration::from_micros(200));
+        }
+    }
+
     pub fn read_mem(&self, addr: u64, len: usize) -> Result<Vec<u8>, String> {
         let mut f = std::fs::File::open(format!("/proc/{}/mem", self.pid)).map_err(|e| e.to_string())?;
         f.seek(SeekFrom::Start(addr)).map_err(|e| e.to_string())?;
